@@ -6,6 +6,7 @@ CONSTANTS
   AcqBarrier = TRUE
   NotLeaderPanics = FALSE
   ApplyRefuses = FALSE
+  QueueGroup = TRUE
   MaxReq = 2
   MaxTransfers = 2
   MaxCancels = 0
